@@ -320,6 +320,22 @@ pub fn run_c09(tier: Tier) -> Report {
         rep.add_states(n);
         rep.extra("self_related_images", json!(n));
     }
+    // placement: the input slice at every byte offset 0..15 of its buffer (the result must not
+    // depend on where the slice starts in memory)
+    {
+        let shapes: [(usize, usize); 6] = [(16, 16), (24, 17), (33, 10), (8, 10), (64, 9), (40, 24)];
+        let work: Vec<(usize, usize, u8)> = (0..shapes.len()).flat_map(|s| (0..16usize).flat_map(move |o| [1u8, 6, 12].into_iter().map(move |st| (s, o, st)))).collect();
+        work.par_iter().for_each(|&(si, off, st)| {
+            let (w, h) = shapes[si];
+            let data = geometry_content(0, w, h, seed ^ 0x99);
+            let mut buf = vec![0xEEu8; data.len() + 32];
+            buf[off..off + data.len()].copy_from_slice(&data);
+            check_image(&rep, "C09", w, h, st, &buf[off..off + data.len()], &format!("input slice at byte offset {off} of its buffer"), true);
+        });
+        rep.add_transitions(work.len() as u64);
+        rep.add_states(work.len() as u64);
+        rep.extra("slice_placements", json!(work.len()));
+    }
     // call histories: the filter is a pure function; all sequences of three calls over an alphabet
     // of (shape, strength, content) on one dedicated thread
     {
@@ -355,7 +371,7 @@ pub fn run_c09(tier: Tier) -> Report {
     }
     rep.set_rule(&format!(
         "kernel: (A,B,C,D) patterns x strengths 1..12 placed in images that isolate one pass ({} units of 65536 patterns; quick = all 2^32 for one strength (5 + VERIF_SEED mod 12) in the vector slot of the horizontal pass, 32x32 (A,B) lattice x all (C,D) for every strength, pass and slot kind (packed vector lanes, scalar remainder, alone in an otherwise flat vector group); thorough = all 2^32 x 12 x both passes x vector and scalar slots, and all 2^32 x 12 alone in an otherwise flat vector group of the horizontal pass); \
-         geometry: all widths 1..={maxw} x heights 0..={maxh} x 12 strengths x 6 contents {:?}; images in which every second 8-column group / 8-row band holds what the filter (either pass, both, or none) makes of its neighbour, for every strength; all sequences of three calls over 30 (shape, strength, content) letters on one thread (purity); non-trivial = image with at least one filterable edge",
+         geometry: all widths 1..={maxw} x heights 0..={maxh} x 12 strengths x 6 contents {:?}; the input slice at every byte offset 0..15 of its buffer; images in which every second 8-column group / 8-row band holds what the filter (either pass, both, or none) makes of its neighbour, for every strength; all sequences of three calls over 30 (shape, strength, content) letters on one thread (purity); non-trivial = image with at least one filterable edge",
         units.len(), GEOM_NAMES
     ));
     rep.sample(json!({"kernel": {"A": 10, "B": 10, "C": 9, "D": 10, "strength": 5, "expected": annex_j(10, 10, 9, 10, 5)}}));
